@@ -78,7 +78,7 @@ pub fn run(cfg: &RunCfg) -> Report {
     let cases = cfg.cases(64, 2000);
     let e1 = run_cases(cfg, 1, cases, Duration::from_secs(3600), |c, rng, rep| {
         let sc = ConfigSnapshot { mode: if rng.chance(1, 2) { SchedulingMode::Classic } else { SchedulingMode::Enhanced }, ..ConfigSnapshot::default() };
-        let opts = StreamOpts { n_links: 1 + rng.usize_below(4), cfg: sc, ticks: 0, probing: rng.chance(1, 2), faults: Faults::None, retransmit_pct: 3, control_pct: 3, critical_windows: false, big_jumps: false, initial_windows: None, loss_permille: 10, stall_min_in_flight_small: false, echo_fuzz: false, rate_pct: 100 };
+        let opts = StreamOpts { n_links: 1 + rng.usize_below(4), cfg: sc, ticks: 0, probing: rng.chance(1, 2), faults: Faults::None, retransmit_pct: 3, control_pct: 3, critical_windows: false, big_jumps: false, initial_windows: None, loss_permille: 10, stall_min_in_flight_small: false, echo_fuzz: false, rate_pct: 100, short_sends: false };
         let want = rep.wants_sample();
         if let Some(s) = run_reload_case(opts, rng, rep, c)
             && want
